@@ -141,13 +141,6 @@ def finish(prop, tier, level, merged, t0, *, rule, assumptions, replay_fn=None, 
         else:
             unknown[c] = n
 
-    # vacuity guards
-    for g in guards or []:
-        name, minimum = g
-        have = merged["counters"].get(name, 0) if name != "_outcomes" else len(merged["outcomes"])
-        if have < minimum:
-            raise HarnessError("vacuity guard failed: %s = %s < %s" % (name, have, minimum))
-
     # replays of unknown violations (fresh process), before reporting
     replay_paths = []
     if unknown:
@@ -166,6 +159,15 @@ def finish(prop, tier, level, merged, t0, *, rule, assumptions, replay_fn=None, 
                     raise HarnessError("violation did not reproduce on replay (harness error): %s" % json.dumps(rec))
             replay_paths.append(path)
             n += 1
+
+    # vacuity guards: only a run WITHOUT violations can be vacuous (a mutant may legitimately change
+    # the engine output some counters are derived from)
+    if not unknown:
+        for g in guards or []:
+            name, minimum = g
+            have = merged["counters"].get(name, 0) if name != "_outcomes" else len(merged["outcomes"])
+            if have < minimum:
+                raise HarnessError("vacuity guard failed: %s = %s < %s" % (name, have, minimum))
 
     subs, nsubs = compact_subspaces(merged["subspaces"])
     exhaustive = all(s["exhaustive"] for s in subs) and nsubs == len(subs) and bool(subs)
